@@ -89,6 +89,7 @@ def execute(prog, base):
                     recs[path] = json.load(open(f))
             time.sleep(0.01)
         res["recs"] = recs
+        res["imports"] = [json.load(open(os.path.join(d, f))) for f in sorted(os.listdir(d)) if f.startswith("import_") and f.endswith(".json")]
         if len(recs) < len(members):
             res["timed_out"] = True
             return runner.finish(res, p)
@@ -149,6 +150,14 @@ def oracle(prog, res):
                 v.append(("tracker_not_relaunched", f"kill {i + 1}: pid still {e['new_pid']}"))
             elif not e["warned"]:
                 v.append(("no_relaunch_warning", f"kill {i + 1}"))
+            c = e.get("child")
+            if c is not None:
+                if "error" in c:
+                    v.append(("child_after_tracker_death_failed", f"kill {i + 1}: {c}"))
+                elif c["tracker_pid_after_op"] != e["new_pid"] or c["relaunched_in_child"]:
+                    v.append(("member_uses_another_tracker", f"kill {i + 1}: a child spawned right after the tracker died talks to tracker "
+                              f"{c['tracker_pid_after_op']} (inherited {c['tracker_pid_inherited']}, relaunched in the child: "
+                              f"{c['relaunched_in_child']}) while the root's tracker is {e['new_pid']}"))
         if h.get("final_err"):
             v.append(("tracked_operation_failed_after_tracker_death", f"final operation: {h['final_err']}"))
         elif not h["final_removed"]:
@@ -164,6 +173,12 @@ def oracle(prog, res):
                       f"after a tracked operation, root's tracker is {tracker}"))
         elif r["tracker_pipe"] != root["tracker_pipe"]:
             v.append(("member_holds_another_pipe", f"member {path}: {r['tracker_pipe']} vs root {root['tracker_pipe']}"))
+    for imp in res.get("imports", []):
+        if "error" in imp:
+            v.append(("module_level_tracked_operation_failed", f"{imp}"))
+        elif imp["tracker_pid_at_import"] != tracker:
+            v.append(("member_uses_another_tracker", f"member pid {imp['pid']} (loky_init_main): a tracked operation at module level of the "
+                      f"re-imported main script reached tracker {imp['tracker_pid_at_import']}, the root's tracker is {tracker}"))
     for e in res["events"]:
         if e[0] in ("tracker_gone_at_signal", "tracker_gone_at_burst"):
             v.append(("tracker_died_from_signal", f"{e}"))
@@ -197,7 +212,7 @@ def real_shard(seed, n, tier="quick"):
     def progs(draw):
         if draw(st.integers(0, 3)) == 0:
             return {"mode": "heal", "kills": draw(st.integers(1, 3)), "gap": draw(st.sampled_from([0.0, 0.05, 0.3])),
-                    "op": draw(st.sampled_from(["register", "unregister"]))}
+                    "op": draw(st.sampled_from(["register", "unregister", "spawn", "spawn"]))}
         tree = draw(trees)
         tree["death"] = "return"           # the root (driver) returns
         n_ = len(_paths(tree))
